@@ -236,6 +236,75 @@ def _split_targets(s):
     return out
 
 
+def twin_sessions(ctx, n, mon):
+    """History across connections: two ledgers of the same shape (the second has every amount doubled), the same point and
+    range selections executed alternately on both. position / weight / balance / sum(position) of every execution are
+    compared with values computed from that ledger's directives: nothing may be carried over from the scan before."""
+    from beancount.core import data, convert, inventory
+    from beancount.core.amount import Amount
+    from beancount.core.position import Position
+    rng = ctx.rng('twin', n)
+    led = ledgers.gen_ledger(rng, ntxn=rng.randint(3, ctx.pick(10, 30)))
+    entries, errors, options = led.loaded
+    factor = rng.choice([2, 3, -1])
+    twin = []
+    for e in entries:
+        if isinstance(e, data.Transaction):
+            e = e._replace(postings=[p._replace(units=Amount(p.units.number * factor, p.units.currency)) for p in e.postings])
+        twin.append(e)
+    ledgers_ = {'A': entries, 'B': twin}
+    conns = {k: engine.connection(ledger=(v, errors, options)) for k, v in ledgers_.items()}
+    flat = {k: [(t, p) for t in v if isinstance(t, data.Transaction) for p in t.postings] for k, v in ledgers_.items()}
+    if not flat['A']:
+        return
+    case = {'replay': ['twin', n], 'ledger': led.text, 'twin': f'every posting amount multiplied by {factor}'}
+    order = ['A', 'B', 'A', 'B', 'B', 'A']
+    for _ in range(ctx.pick(4, 10)):
+        t, p = rng.choice(flat['A'])
+        kind = rng.choice(['point', 'point', 'point', 'from-date', 'account', 'all'])
+        if kind == 'point':
+            cond = f'WHERE date = {t.date} AND account = "{p.account}"'
+            pred = lambda tt, pp, d=t.date, a=p.account: tt.date == d and pp.account == a          # noqa: E731
+        elif kind == 'from-date':
+            cond = f'WHERE date >= {t.date}'
+            pred = lambda tt, pp, d=t.date: tt.date >= d                                             # noqa: E731
+        elif kind == 'account':
+            cond = f'WHERE account = "{p.account}"'
+            pred = lambda tt, pp, a=p.account: pp.account == a                                       # noqa: E731
+        else:
+            cond, pred = '', (lambda tt, pp: True)
+        for which in rng.sample(order, len(order)):
+            conn = conns[which]
+            sel = [(tt, pp) for tt, pp in flat[which] if pred(tt, pp)]
+            exp_pos = [Position(pp.units, pp.cost) for _, pp in sel]
+            rows = fetch(ctx, conn, f'SELECT position, weight, number, balance {cond}', case, mon)
+            agg = fetch(ctx, conn, f'SELECT sum(position) AS s, units(sum(position)) AS u, last(balance) AS b, count(*) AS n {cond}', case, mon)
+            if rows is None or agg is None:
+                return
+            ctx.count('obs.twin_executions')
+            ctx.count(f'obs.twin_selection_size.{min(len(sel), 3)}')
+            ctx.case((led.text, which, cond), len(sel) >= 1)
+            run = inventory.Inventory()
+            if len(rows) != len(sel):
+                ctx.violation('c12.twin_row_count', f'ledger {which} {cond}: {len(rows)} rows, the directives hold {len(sel)}', dict(case, statement=cond, ledger_used=which))
+                return
+            for i, (r, ep, (tt, pp)) in enumerate(zip(rows, exp_pos, sel)):
+                run.add_position(ep)
+                if r[0] != ep or r[1] != convert.get_weight(pp) or r[2] != pp.units.number or r[3] != run:
+                    ctx.violation('c12.twin_row_value',
+                                  f'ledger {which} (executed in alternation with its twin) SELECT position, weight, number, balance {cond}: row {i} = {show(r)}; '
+                                  f'the directives give position {ep}, weight {convert.get_weight(pp)}, running balance {run}',
+                                  dict(case, statement=cond, ledger_used=which))
+                    return
+            if sel and (agg[0][0] != run or agg[0][2] != run or agg[0][3] != len(sel) or agg[0][1] != run.reduce(convert.get_units)):
+                ctx.violation('c12.twin_sum', f'ledger {which} {cond}: sum(position) = {agg[0][0]}, last(balance) = {agg[0][2]}; the directives sum to {run}',
+                              dict(case, statement=cond, ledger_used=which))
+                return
+            if mon.balance_violations:
+                ctx.violation('c12.balance_added_twice_in_a_row', f'{cond}: {mon.balance_violations[0]}', dict(case, statement=cond))
+                return
+
+
 def run_case(ctx, n, mon):
     rng = ctx.rng('case', n)
     led = ledgers.gen_ledger(rng, ntxn=rng.randint(3, ctx.pick(16, 60)))
@@ -248,6 +317,7 @@ def run_case(ctx, n, mon):
             homomorphism(ctx, rng, conn, case)
         for _ in range(ctx.pick(4, 8)):
             running_balance(ctx, rng, conn, case, mon)
+        twin_sessions(ctx, n, mon)
     finally:
         mon.enabled = False
     if len(ctx.samples) < 2:
@@ -263,14 +333,20 @@ def run(ctx):
 
 
 def replay(ctx, case):
-    run_case(ctx, case['replay'][1], monitors.install())
+    mon = monitors.install()
+    if case['replay'][0] == 'twin':
+        mon.enabled = True
+        twin_sessions(ctx, case['replay'][1], mon)
+        mon.enabled = False
+        return
+    run_case(ctx, case['replay'][1], mon)
 
 
 def finalize(merged):
     c = merged['counters']
     reasons = []
     for k in ('obs.inventory_sum_cases', 'obs.homomorphism_cases', 'obs.function_relations', 'obs.partition_checks', 'obs.balance_cases', 'obs.balance_monitor_events',
-              'obs.balance_with_subquery_between', 'obs.balance_references.2', 'obs.balance_references.3', 'obs.balance_in_condition_cases'):
+              'obs.balance_with_subquery_between', 'obs.twin_executions', 'obs.twin_selection_size.1', 'obs.twin_selection_size.3', 'obs.balance_references.2', 'obs.balance_references.3', 'obs.balance_in_condition_cases'):
         if c.get(k, 0) == 0:
             reasons.append(f'{k} == 0')
     return reasons
